@@ -118,6 +118,14 @@ CLAIMED = {
              "curve/process metrics by definition element-wise; default-permeance lemma by lock-step over the solver loop.",
         note=TB + "calculate_partial_fluxes by contract (pure function of its argument leaves); repaired by fix commits 218ae59, bbb5fa0",
         technique="contracts naming the callee result by an uninterpreted application + congruence; path enumeration; lock-step relational proof"),
+    'C09': dict(
+        level='proof', ref='DESIGN.md 3/C09',
+        text="DiffusionCurve.__attrs_post_init__ is executed symbolically on curves of arbitrary symbolic length (element-wise semantics): from permeances (3 units x 2 "
+             "composition bases): permeances exposed in kg units, fluxes = permeance x feed pressure; both supplied: converted/kept; from fluxes produced by the solver's law "
+             "at a self-consistent permeate (hypothesis solved for the second permeance): the reported permeances are the original ones in vacuum and temperature mode, and "
+             "re-inversion in vacuum returns the permeances of a permeance-built curve. The permeate-pressure round trip is genuinely violated (known finding K2, semantic fingerprint).",
+        note=TB + "get_partial_pressures by contract; self-consistent permeate, non-negative permeances and non-zero driving forces are hypotheses of the statement",
+        technique="contracts on the constructor hook; eager element-wise comprehension semantics; ring normal form / z3; fingerprinted known finding"),
 }
 
 NOT_YET = "check under construction (see DESIGN.md section 7); not claimed until every obligation is in place"
